@@ -558,7 +558,7 @@ func runCase(c Case) (res simResult) {
 		}
 		if got[u] > hi {
 			facet := "C06/pipeline"
-			if r := c.Site[u]; r == nil || (r.FailFirst == 0 && !(r.Kind == "status" && retried(r.Status))) {
+			if r := c.Site[u]; r == nil || (r.FailFirst == 0 && !(r.Kind == "status" && (retried(r.Status) || r.Challenge))) {
 				facet = "C08/pipeline"
 			}
 			return fail(facet, "%s was requested %d time(s), at most %d expected (max-retry %d, max-redirect %d, seencheck %v)", u, got[u], hi, c.Settings.MaxRetry, c.Settings.MaxRedirect, c.Settings.Seencheck)
@@ -614,14 +614,21 @@ func runCase(c Case) (res simResult) {
 			if f.Status != 429 && f.Status != 403 && f.Status != 408 && f.Status != 425 {
 				continue
 			}
-			if f.Status == 403 && veriflib.FindingOpen(simKF403) {
+			if f.Challenge {
+				res.Classes = append(res.Classes, "penalised-challenge-page")
+			}
+			if f.Status == 403 && !f.Challenge && veriflib.FindingOpen(simKF403) {
 				veriflib.Excluded("C13/pipeline", "open finding "+simKF403)
 				continue
 			}
 			for _, g := range log {
 				if g.Host == f.Host && g.Attempt == 1 && g.Seq > f.Seq && g.AtMs > f.DoneMs && g.AtMs < f.DoneMs+5000 {
-					return fail("C13/pipeline", "host %s answered %d to %s at %d ms and received a new request (%s) at %d ms: %d ms later, the back-off penalty is at least 5 s",
-						f.Host, f.Status, f.URL, f.DoneMs, g.URL, g.AtMs, g.AtMs-f.DoneMs)
+					what := fmt.Sprint(f.Status)
+					if f.Challenge {
+						what = "with a challenge page (403, cf-mitigated: challenge)"
+					}
+					return fail("C13/pipeline", "host %s answered %s to %s at %d ms and received a new request (%s) at %d ms: %d ms later, the back-off penalty is at least 5 s",
+						f.Host, what, f.URL, f.DoneMs, g.URL, g.AtMs, g.AtMs-f.DoneMs)
 				}
 			}
 			res.Classes = append(res.Classes, "penalised-response")
